@@ -346,6 +346,15 @@ struct SplineCopyView final : ISpline
     VectorXd partialT(bool) const override { return s.getEnergyPartialGradByTimes(); }
     Grads propagate(const MatrixXd &, const VectorXd &, bool) override { no(); }
     Grads propagateIntoStale(const MatrixXd &, const VectorXd &, int) override { no(); }
+    Grads propagateAliasedTimes(const MatrixXd &, const VectorXd &) override { no(); }
+    VectorXd trajEvalHint(double t, int *hint, int k) const override
+    {
+        auto v = s.getTrajectory().evaluate(t, hint, k);
+        VectorXd r(DIM);
+        for (int j = 0; j < DIM; ++j)
+            r(j) = v(j);
+        return r;
+    }
     MatrixXd partialCStale(bool) const override { no(); }
     VectorXd partialTStale(bool) const override { no(); }
     Grads energyGradStale(bool) const override { no(); }
